@@ -261,7 +261,7 @@ def run(R):
             for kind, src, wb in st['ret']:
                 if kind == 'none':
                     g = pn.edge_guards(wb)
-                    okg = any('response' in show(t) and 'discr(' in show(t) and vals == [0] for s, vals, t in g)
+                    okg = any('response' in show(t) and 'discr(' in show(t) and pn.guard_values(s, vals) == {0} for s, vals, t in g)
                     R.check(okg, 'C07.R1', 'clean-end-behind-response-ok', site(pn, wb), 'guards on Ready(None): %r' % [(v, show(t)[:70]) for s, v, t in g])
 
     # ---------------------------------------------------------------- R2 panic reachability
